@@ -368,8 +368,30 @@ func runC02(w *World, c *Check) {
 		sawKey, sawName := false, false
 		aP := substParams(isReplay, "@1") // the authenticator parameter
 		keyTerms := map[string]string{} // rendered key -> where
+		nCT := 0
 		lw3.Visit = func(ctx *LockCtx, in ssa.Instruction, held []Held) {
 			where := w.Pos(InstrPos(in))
+			// what is remembered in an entry: cTime must be the authenticator's client time (the map key),
+			// presentedTime the service's clock
+			if st, ok := in.(*ssa.Store); ok {
+				if fad, ok := st.Addr.(*ssa.FieldAddr); ok {
+					stt := fad.X.Type().Underlying().(*types.Pointer).Elem()
+					if strings.HasSuffix(stt.String(), "service.replayCacheEntry") {
+						f := stt.Underlying().(*types.Struct).Field(fad.Field).Name()
+						v := ctx.FA.R.R(st.Val)
+						switch f {
+						case "cTime":
+							nCT++
+							good := strings.Contains(v, aP+".CTime") && strings.Contains(v, aP+".Cusec")
+							c.Decide(good, "C02.key", FuncKey(ctx.Fn), "entry.cTime", where, "the client time remembered in an entry (by which it is later evicted) is the authenticator's CTime+Cusec", "cTime is set to "+trunc(v, 160))
+						case "presentedTime":
+							c.Decide(strings.Contains(v, "time.Now()"), "C02.key", FuncKey(ctx.Fn), "entry.presentedTime", where, "presentedTime is the service's clock at presentation", "presentedTime is set to "+trunc(v, 160))
+						case "sName":
+							c.Decide(v == substParams(isReplay, "@0"), "C02.key", FuncKey(ctx.Fn), "entry.sName", where, "the service name remembered is the one presented", "sName is set to "+trunc(v, 120))
+						}
+					}
+				}
+			}
 			if mu, ok := in.(*ssa.MapUpdate); ok {
 				if types.Identical(mu.Map.Type().Underlying(), replay.Underlying()) {
 					k := ctx.FA.R.R(mu.Key)
@@ -405,6 +427,9 @@ func runC02(w *World, c *Check) {
 			}
 		}
 		lw3.Walk(isReplay)
+		if nCT == 0 {
+			c.Fail("C02.key", FuncKey(isReplay), "entry.cTime", w.Pos(isReplay.Pos()), "an entry records the authenticator's client time", "no store to replayCacheEntry.cTime found in IsReplay's transitive body")
+		}
 		if len(keyTerms) > 0 {
 			var ks []string
 			for k, wh := range keyTerms {
